@@ -20,7 +20,8 @@ REQUIRED_THEOREMS = ['Properties.C06.made_autoregressive', 'Properties.C06.made_
                      'Properties.C06.build_valid', 'Properties.C06.outputDegrees_getElem',
                      'Properties.C06.mask_getElem', 'Properties.C06.seqDegrees_residual_ok',
                      'Properties.C06.maskedLinear_resp', 'Properties.C06.residual_resp',
-                     'Properties.C06.made_output_autoregressive', 'Properties.C06.made_is_autoreg_conditioner']
+                     'Properties.C06.made_output_autoregressive', 'Properties.C06.made_is_autoreg_conditioner',
+    "Properties.C06.ar_inverse_exact_after_F_passes", "Properties.C06.ar_inverse_exact_after_F_passes_real", "Properties.C06.ar_inverse_exact_any_input_real", "Properties.C06.made_ar_inverse_exact_after_F_passes", "Properties.C06.ar_one_pass_not_enough",]
 RULE = ("cases = (copy in {transforms.MADE, nde.MADE, nde.MixtureOfGaussiansMADE}, F, H, blocks, block type, multiplier, "
         "context width, batch-norm, activation in {relu, t->2t}, random-degree draw); quick: every (copy,F<=6,H<=8,blocks<=3,"
         "type) with the remaining knobs drawn from the PRNG, thorough: the full product; plus random-mask draws per size, "
